@@ -2,25 +2,60 @@
 from checks import faultcommon as fc
 LEVEL = 'model_checking'
 
+# first outcomes of a script, most telling first (priority of the strata when the budget is short)
+_EXECUTED = ('cut-after-exec', 'cut-mid-reply', 'expired-io', 'expired-sent')
+_PRIO = {o: i for i, o in enumerate(_EXECUTED + ('LOADING', 'cut-before-exec', 'TRYAGAIN', 'CLUSTERDOWN', 'MOVED', 'ASK', 'REDIRECT'))}
+
+
+def _batch_key(c):
+    """batches / MULTI ... EXEC blocks with a non-retryable member: one per (wrapper, shape, member classes, first outcome)"""
+    o = fc.first_outcome(c)
+    if not fc.has_plain(c) or o not in _PRIO or c['disable']:
+        return None
+    # mixed batches first (a retry-safe neighbour must not pull the others into a re-send), then the all-plain ones
+    return (_PRIO[o] + (0 if fc.mixed(c) else 20), c['kind'], c['shape'], c['class'], c['pclass'],
+            c['path'] if o.startswith('expired') else '', o)
+
+
+def _sync_expiry_key(c):
+    """ConnLifetime expiry under a request in flight on the synchronous path (reply later than the 1 s close grace), for every
+    wrapper, as the first outcome and after an earlier attempt"""
+    if c['class'] != 'plain' or not any(st['o'] == 'expired-io' for st in c['script']):
+        return None
+    pos = [i for i, st in enumerate(c['script']) if st['o'] == 'expired-io'][0]
+    return (min(pos, 1), c['kind'], c['disable'], c['ctxKind'] if pos == 0 else '')
+
 
 def run(ctx):
     if getattr(ctx, 'replay', None):
         return fc.replay(ctx, lambda w: w in fc.C03_WHATS, lambda w: False)
     th = ctx.tier == 'thorough'
-    # model: the retry wrappers (AtMostOnceNonRetryable) and the expiry path of pipe.go that feeds them
+    # model: the retry wrappers (AtMostOnceNonRetryable; negative configs: whole-batch retry because of one retry-safe member,
+    # block re-sent after a lost EXEC reply, errConnExpired from the synchronous path) and the expiry path of pipe.go that feeds them
     fc.run_tlc_many(ctx, fc.retry_model_jobs(th, 'c03') + fc.pipe_model_jobs(th, 'c03'), threads=4)
-    # binding: TLC-generated outcome scripts (every fault point of every attempt, connection expiry, redirects) for
-    # non-retryable commands through every client kind; the servers' execution log is judged by RetryTrace.tla
+    # binding: TLC-generated outcome scripts (every fault point of every attempt, connection expiry in both connection modes,
+    # redirects) for non-retryable commands through every client kind; the servers' execution log is judged by RetryTrace.tla
     cases = fc.gen_retry_cases(ctx, 40000 if th else 8000, ctx.seed)
-    sel = fc.select_retry_cases(cases, 1500 if th else 220, ctx.seed, classes=('plain',))
+    sel = fc.select_retry_cases(cases, 1500 if th else 200, ctx.seed, classes=('plain',))
+    have = set(id(c) for c in sel)
+    se, nse = fc.select_by_strata(cases, _sync_expiry_key, 200 if th else 24, ctx.seed, per=3 if th else 1)
+    sel += [c for c in se if id(c) not in have]
     # a few retry-safe ones as a control: they may be executed twice, and the monitor must stay silent about them
-    sel += fc.select_retry_cases(cases, 300 if th else 40, ctx.seed + 1, classes=('readonly', 'retryable'))
+    sel += fc.select_retry_cases(cases, 300 if th else 30, ctx.seed + 1, classes=('readonly', 'retryable'))
+    # batches mixing command classes and MULTI ... EXEC blocks, on every wrapper
+    bcases = fc.gen_retry_cases(ctx, 20000 if th else 4000, ctx.seed, 'Gen_batch.cfg')
+    bsel, nb = fc.select_by_strata(bcases, _batch_key, 1200 if th else 150, ctx.seed, per=3 if th else 1)
+    sel += bsel
     verdicts, rep = fc.run_retry_scenarios(ctx, sel)
     fc.report_retry_verdicts(ctx, verdicts, lambda w: w in fc.C03_WHATS, sel)
-    ctx.extra['scenarios_generated'] = len(cases)
+    ctx.extra['scenarios_generated'] = len(cases) + len(bcases)
     ctx.extra['scenarios_run'] = len(sel)
+    ctx.extra['strata'] = dict(sync_expiry=nse, sync_expiry_run=len(se), batch=nb, batch_run=len(bsel))
     ctx.exhaustive = False
     ctx.assumptions += [
-        'fakeredis stands for the servers; an execution is an SExec event of the request id (MOVED/ASK/REDIRECT replies are not executions)',
-        'one command per call (cluster batches: one member plus a sibling); MULTI/EXEC blocks re-sent from txIdx are not scripted',
+        'fakeredis stands for the servers; an execution is an SExec event of the request id (MOVED/ASK/REDIRECT replies are not executions; '
+        'a member of a MULTI ... EXEC block is executed when EXEC runs it)',
+        'calls are one command, a two-command DoMulti (every combination of member classes) or MULTI, two commands, EXEC; cluster batches: '
+        'one member plus a read-only sibling, or one block; LOADING-like refusals and lifetime expiry inside a cluster block are not scripted',
+        'the connection mode (synchronous path / pipelined) is observed through the hook pipe.sync, not assumed from the options',
         'Retry.tla scenarios are drawn by TLC simulation (seeded) and chosen by strata, not exhaustively']
